@@ -191,27 +191,83 @@ proof fn lemma_best_path_le_depth(t: &BlockTree<CachedBlock>)
 // which child of the anchor is stable (None if none): uninterpreted here, decided by unstable_blocks::get_stable_child
 uninterp spec fn stable_child_spec(b: &UnstableBlocks) -> Option<int>;
 
-// [trusted:assumed-contract] unstable_blocks::peek (unstable_blocks.rs:299): Some(anchor) iff a stable child exists
+// [trusted:assumed-contract] unstable_blocks::get_stable_child (unstable_blocks.rs:383; `.iter().enumerate().map().collect()` +
+// sort_by_key are outside Verus): the index of the anchor's stable child. Decided against the property's depth rule by the
+// Kani harnesses of group stable_child (bounded in the number of children).
 #[verifier::external_body]
-fn peek(blocks: &UnstableBlocks) -> (r: Option<&CachedBlock>)
+fn get_stable_child(blocks: &UnstableBlocks) -> (r: Option<usize>)
     ensures
         r.is_some() <==> stable_child_spec(blocks).is_some(),
-        r matches Some(b) ==> *b == blocks.tree.root,
+        r matches Some(i) ==> stable_child_spec(blocks) == Some(i as int) && i < blocks.tree.children@.len(),
 { unimplemented!() }
 
-// [trusted:assumed-contract] unstable_blocks::pop (unstable_blocks.rs:306): if a stable child exists, the tree becomes that
-// child's subtree (siblings discarded) and the old anchor block is returned; otherwise None and nothing changes.
-#[verifier::external_body]
-fn pop(blocks: &mut UnstableBlocks, stable_height: Height) -> (r: Option<Block>)
-    ensures
-        r.is_some() <==> stable_child_spec(old(blocks)).is_some(),
-        r.is_none() ==> *final(blocks) == *old(blocks),
-        r matches Some(b) ==> b.hash == old(blocks).tree.root.block_hash && b.header == old(blocks).tree.root.header
-            && 0 <= stable_child_spec(old(blocks)).unwrap() < old(blocks).tree.children@.len()
-            && final(blocks).tree == old(blocks).tree.children@[stable_child_spec(old(blocks)).unwrap()]
-            && final(blocks).stability_threshold == old(blocks).stability_threshold
-            && final(blocks).network == old(blocks).network,
-{ unimplemented!() }
+// [trusted:stand-in] the cache-side effects of pop: boxed iterators / entry-API maps / Rc<RefCell<..>> caches. They touch only
+// the cache fields named in their signatures (&mut self), never the tree.
+impl OutPointsCache {
+    #[verifier::external_body]
+    fn remove(&mut self, block: &Block) { unimplemented!() }
+}
+impl NextBlockHeaders {
+    #[verifier::external_body]
+    fn remove_until_height(&mut self, until_height: Height)
+        ensures final(self).offered@ == old(self).offered@,
+    { unimplemented!() }
+}
+impl BlockTree<CachedBlock> {
+    // [trusted:stand-in] BlockTree::blocks (boxed `once().chain(flat_map())` iterator): all blocks of the subtree, as a vector
+    #[verifier::external_body]
+    fn blocks(&self) -> (r: Vec<&CachedBlock>) { unimplemented!() }
+    // [trusted:stand-in] BlockTree::remove_from_cache: drops the subtree's bodies from the shared cache (consumes the subtree)
+    #[verifier::external_body]
+    fn remove_from_cache(self) { unimplemented!() }
+    // [trusted:stand-in] BlockTree::tip_depths (explicit stack walk): opaque vector, only stored in the tip-depth cache
+    #[verifier::external_body]
+    fn tip_depths(&self) -> (r: Vec<usize>) { unimplemented!() }
+//@extract file=canister/src/blocktree.rs in="impl BlockTree<CachedBlock>" item="fn into_root_and_remove_from_cache" props=C03
+//@ ret r
+//@ spec
+//@| ensures r.hash == self.root.block_hash, r.header == self.root.header,
+//@end
+}
+impl UnstableBlocks {
+//@extract file=canister/src/unstable_blocks.rs in="impl UnstableBlocks" item="fn refresh_tip_depths_cache" props=C03
+//@ spec
+//@| ensures
+//@|     final(self).tree == old(self).tree, final(self).stability_threshold == old(self).stability_threshold,
+//@|     final(self).network == old(self).network, final(self).next_block_headers == old(self).next_block_headers,
+//@|     final(self).outpoints_cache == old(self).outpoints_cache,
+//@end
+}
+
+// unstable_blocks::peek (unstable_blocks.rs:299): Some(anchor) iff a stable child exists
+//@extract file=canister/src/unstable_blocks.rs item="fn peek" props=C03
+//@ ret r
+//@ rewrite R9 "\.map\(\|_\| blocks\.tree\.root\(\)\)" => ".map(|vp_i: usize| -> (vp_b: &CachedBlock) ensures *vp_b == blocks.tree.root { blocks.tree.root() })"
+//@ spec
+//@| ensures
+//@|     r.is_some() <==> stable_child_spec(blocks).is_some(),
+//@|     r matches Some(b) ==> *b == blocks.tree.root,
+//@end
+
+// unstable_blocks::pop (unstable_blocks.rs:306): if a stable child exists, the tree becomes that child's subtree (siblings
+// discarded) and the old anchor block is returned; otherwise None and nothing changes.
+//@extract file=canister/src/unstable_blocks.rs item="fn pop" props=C03
+//@ ret r
+//@ spec
+//@| ensures
+//@|     r.is_some() <==> stable_child_spec(old(blocks)).is_some(),
+//@|     r.is_none() ==> *final(blocks) == *old(blocks),
+//@|     r matches Some(b) ==> b.hash == old(blocks).tree.root.block_hash && b.header == old(blocks).tree.root.header
+//@|         && 0 <= stable_child_spec(old(blocks)).unwrap() < old(blocks).tree.children@.len()
+//@|         && final(blocks).tree == old(blocks).tree.children@[stable_child_spec(old(blocks)).unwrap()]
+//@|         && final(blocks).stability_threshold == old(blocks).stability_threshold
+//@|         && final(blocks).network == old(blocks).network,
+//@ loop 1 binder=itb
+//@| invariant
+//@|     blocks.tree == old(blocks).tree.children@[stable_child_idx as int],
+//@|     tree.root == old(blocks).tree.root,
+//@|     blocks.stability_threshold == old(blocks).stability_threshold, blocks.network == old(blocks).network,
+//@end
 
 // the tree after a new leaf `b` has been appended below the first block with hash b.sprev()
 uninterp spec fn tree_extended(t: BlockTree<CachedBlock>, hash: BlockHash, header: Header) -> BlockTree<CachedBlock>;
